@@ -28,8 +28,10 @@ func EMLDoc(t *rapid.T) string {
 		hdr("Cc", rapid.SampledFrom([]string{"cc@verif.example", "x", "\"unterminated <cc@verif.example>"}).Draw(t, "cc"))
 	}
 	for i := 0; i < rapid.IntRange(0, 2).Draw(t, "nextra"); i++ {
-		hdr(rapid.SampledFrom([]string{"X-Mailer", "User-Agent", "Organization", "Importance", "X-Priority", "References", "In-Reply-To", "List-Unsubscribe", "Precedence"}).Draw(t, "xk"),
-			rapid.SampledFrom([]string{"value", "", "high", "1", "<a@b> <c@d>", "=?UTF-8?q?x?="}).Draw(t, "xv"))
+		hdr(rapid.SampledFrom([]string{"X-Mailer", "User-Agent", "Organization", "Importance", "X-Priority", "X-MSMail-Priority", "Priority", "MIME-Version", "Content-Length", "Lines", "References", "In-Reply-To", "List-Unsubscribe", "Precedence"}).Draw(t, "xk"),
+			rapid.SampledFrom([]string{"value", "", "high", "1", "<a@b> <c@d>", "=?UTF-8?q?x?=",
+				// numbers at and beyond the edges of whatever range a reader expects
+				"0", "00", "+0", "-1", "5", "6", "99", "0 (None)", "1 (Highest)", "-2147483648", "2147483648", "9223372036854775808", "1e3", "0x10", " 3 "}).Draw(t, "xv"))
 	}
 	emlEntity(t, &sb, 0, nil)
 	return sb.String()
@@ -124,6 +126,7 @@ func emlEntity(t *rapid.T, sb *strings.Builder, depth int, outer []string) {
 
 // EMLDictionary holds hostile constants used by the mutators and as a fuzzing dictionary.
 var EMLDictionary = []string{
+	"X-Priority: 0\r\n", "X-Priority: -1\r\n", "X-Priority: 0 (None)\r\n", "X-Priority: 99999999999999999999\r\n", "Importance: 0\r\n", "Priority: -1\r\n", "MIME-Version: 0\r\n", "Content-Length: -1\r\n",
 	"Content-Disposition: attachment; filename=\r\n", "Content-Disposition: attachment; filename=x\r\n", "Content-Disposition: inline; filename=\"\r\n",
 	"Content-Disposition: ;\r\n", "Content-Disposition: attachment; filename\r\n", "Content-Type: multipart/mixed\r\n", "Content-Type: multipart/mixed; boundary=\r\n",
 	"Content-Type: multipart/related; boundary=\"\"\r\n", "Content-Type: ;\r\n", "Content-Type: text/plain; charset\r\n", "Content-Type: text/plain; charset=\r\n",
